@@ -13,6 +13,10 @@ type Lit struct {
 	Value   interface{}
 	Lenient bool          // documentation silent: any outcome except a panic is accepted
 	Alt     []interface{} // further acceptable values
+	// RawBreakEarly (strings): a raw line feed or carriage return stands in the literal before any
+	// backslash or non-ASCII byte. The library's own tests pin that such a literal is no string
+	// (behind an escape or a multi-byte rune the implementation is inconsistent: Lenient).
+	RawBreakEarly bool
 }
 
 func isDig(c byte) bool { return c >= '0' && c <= '9' }
@@ -243,14 +247,18 @@ func ModelString(d []byte, off int, allowBackquote bool) Lit {
 	j := off + 1
 	var val, valRepl []byte
 	lenient := false
+	plain, early := true, false // plain: only unescaped ASCII so far
 	for {
 		if j >= len(d) {
-			return Lit{Lenient: lenient}
+			return Lit{Lenient: lenient, RawBreakEarly: early}
 		}
 		c := d[j]
+		if c == '\\' || c >= utf8.RuneSelf {
+			plain = false
+		}
 		switch {
 		case c == '"':
-			l := Lit{Match: true, End: j + 1, Value: string(val), Lenient: lenient}
+			l := Lit{Match: true, End: j + 1, Value: string(val), Lenient: lenient, RawBreakEarly: early}
 			if lenient {
 				l.Alt = []interface{}{string(valRepl)}
 			}
@@ -258,13 +266,14 @@ func ModelString(d []byte, off int, allowBackquote bool) Lit {
 		case c == '\n' || c == '\r':
 			// raw line break inside an interpreted string: documentation silent / implementation inconsistent
 			lenient = true
+			early = early || plain
 			val = append(val, c)
 			valRepl = append(valRepl, c)
 			j++
 		case c == '\\':
 			r, e, ok := decodeEscape(d, j, '"', true, "")
 			if !ok {
-				return Lit{Lenient: lenient}
+				return Lit{Lenient: lenient, RawBreakEarly: early}
 			}
 			val = utf8.AppendRune(val, r)
 			valRepl = utf8.AppendRune(valRepl, r)
